@@ -49,6 +49,11 @@ type _LexerStateMachine struct {
 	state int
 	mode  []uint32
 	modeStack _Stack[[]uint32]
+
+	// consumed indicates that input was consumed since the last token boundary.
+	// The state alone does not tell: the start state can be the target of
+	// transitions.
+	consumed bool
 }
 
 func (l *_LexerStateMachine) PushRune(r rune) int {
@@ -94,6 +99,7 @@ func (l *_LexerStateMachine) PushRune(r rune) int {
 			switch {
 			case r >= rune(mode[k]) && r <= rune(mode[k+1]):
 				l.state = int(mode[k+2])
+				l.consumed = true
 				return _lexerConsume
 			case r < rune(mode[k]):
 				e = j
@@ -107,6 +113,12 @@ func (l *_LexerStateMachine) PushRune(r rune) int {
 
 	// Move 'i' to the beginning of the actions section.
 	i += gotoN * 3
+
+	// A match of the empty string is never a token: actions only run after some
+	// input was consumed.
+	if !l.consumed {
+		i = end
+	}
 
 	for ; i < end; i += 2 {
 		switch mode[i] {
@@ -123,17 +135,20 @@ func (l *_LexerStateMachine) PushRune(r rune) int {
 		case 3: // Accept
 			l.token = int(mode[i+1])
 			l.state = 0
+			l.consumed = false
 			return _lexerAccept
 		case 4: // Discard
 			l.state = 0
+			l.consumed = false
 			return _lexerDiscard
 		case 5: // Accum
 			l.state = 0
+			l.consumed = false
 			return _lexerTryAgain
 		}
 	}
 
-	if l.state == 0 && r == -1 {
+	if !l.consumed && r == -1 {
 		return _lexerEOF
 	}
 
@@ -142,6 +157,7 @@ func (l *_LexerStateMachine) PushRune(r rune) int {
 func (l *_LexerStateMachine) Reset() {
 	l.mode = nil
 	l.state = 0
+	l.consumed = false
 }
 
 func (l *_LexerStateMachine) Token() int {
